@@ -126,6 +126,18 @@ CHECKS = {
         design_ref="DESIGN.md §5 C13",
         note="Trusted: TLC, sha1 digests of translated text. Programs sampled by seed. Needs hook H1 for address-independent set iteration.",
     ),
+    "C17": dict(
+        category="exploration",
+        technique="switch predicates over every type occurrence and type-parameter declaration as TLA+ operators (HSwitches); programs "
+                  "generated under all 16 switch settings x 4 languages (switches wired through src/args.py), serialised structurally with "
+                  "projection provenance, judged by TLC (HSwitchesTrace)",
+        text="Exploration over seeds (8 per configuration quick, 60 thorough; 64 configurations); each generated program is checked "
+             "completely: no projection / no contravariant projection / no bound / no function type parameter when the switch says so, no "
+             "declaration-site variance for Java and Groovy, invariant function type parameters.",
+        design_ref="DESIGN.md §5 C17",
+        note="Trusted: TLC, the structural serialiser (pser.type_occurrences). Random programs: a violation that needs a rare shape may need the "
+             "thorough tier.",
+    ),
 }
 
 NOT_YET = "check not built yet (work in progress in this session; see DESIGN.md §10 for the order of work)"
